@@ -251,7 +251,7 @@ func propCli(c CliCase) (out pbt.Outcome) {
 			}
 		}
 		before, _ := os.ReadFile(file)
-		ctx, cancel := context.WithTimeout(context.Background(), 20*time.Second)
+		ctx, cancel := context.WithTimeout(context.Background(), 90*time.Second)
 		cmd := exec.CommandContext(ctx, bin, append([]string{"-bondmachine-file", file}, args...)...)
 		cmd.Dir = dir
 		outb, err := cmd.CombinedOutput()
